@@ -38,6 +38,7 @@ def run(ctx):
     ctx.step(noexcept_user, ctx)
     ctx.step(c06.capture, ctx, "C20.deferred")
     ctx.step(c06.exception_identity, ctx, "C20.deferred-exc")
+    ctx.step(c16.unlocked, ctx, "C20.dd-unlocked")
     # DelayedObjects: a throwing payload copy inside set_value must not leave the request half-retired
     from . import c18
     ctx.step(c18.pair, ctx, "C20.delayed")
